@@ -111,7 +111,7 @@ def draw_payload_edit(draw, mod, tname, depth):
         present = [i for i, s in enumerate(mod.samples) if s is not None]
         kinds = ["s_field"] * 2 + ["s_map", "s_map_tail", "s_env", "s_point", "s_sample_new", "s_env_whole", "s_ece_list_whole"]
         if present:
-            kinds += ["s_sample_field"] * 3 + ["s_sample_del"]
+            kinds += ["s_sample_field"] * 3 + ["s_sample_del", "s_sample_alias"]
         if mod.effect is not None and depth < 2:
             kinds += ["effect"] * 2
         kinds += ["s_effect_new"]
@@ -157,6 +157,9 @@ def draw_payload_edit(draw, mod, tname, depth):
             return ["s_sample_field", draw(st.sampled_from(present)), f, sd[f]]
         if k == "s_sample_del":
             return ["s_sample_del", draw(st.sampled_from(present))]
+        if k == "s_sample_alias":
+            # one recording layered into a further slot: the very same Sample object sits in both
+            return ["s_sample_alias", draw(st.one_of(st.sampled_from([0, 1, 127]), st.integers(0, 127))), draw(st.sampled_from(present))]
         if k == "s_effect_new":
             return ["s_effect_new", draw(build.module_spec(in_project=False, depth=0, types=build.LIGHT_TYPES))]
         return ["effect"] + draw(draw_module_edit(mod.effect.module, False, depth + 1))
@@ -417,6 +420,8 @@ def apply_module_edit(mod, e):
                 smp.loop_type = getattr(cls.LoopType, v)
             else:
                 setattr(smp, f, v)
+        elif s == "s_sample_alias":
+            mod.samples[e[2]] = mod.samples[e[3]]
         elif s == "s_sample_del":
             mod.samples[e[2]] = None
         elif s == "s_effect_new":
@@ -556,7 +561,7 @@ def module_paths(mod, e, base):
         env = envelope_of(mod, e[2])
         idx = len(env.points) if e[3] == "append" else e[3]
         return "%s/%s/points/%d" % (pb, envkey(e[2]), idx), list(e[4]), ["%s/%s/points/#len" % (pb, envkey(e[2]))]
-    if s in ("s_sample_new", "s_sample_del"):
+    if s in ("s_sample_new", "s_sample_del", "s_sample_alias"):
         return "%s/samples/%d" % (pb, e[2]), NOCHECK, []
     if s == "s_sample_field":
         f, v = e[3], e[4]
